@@ -87,7 +87,29 @@ FOCUS_TEMPLATES = [
     ("(%s ! position#0) ! .()", lambda q: [['int', str(i)] for i in range(1, len(q) + 1)]),
     ("let $fs := %s ! last#0 return reverse($fs) ! .()", lambda q: [['int', str(len(q))] for _ in q]),
     ("let $fs := for $i in %s return ($i ! number#0) return $fs ! .()", lambda q: [['float', repr(float(x))] for x in q]),
+    # partial applications of built-in functions that read an argument as a whole value (maps and arrays), of tokens
+    # that are both a function and a constructor, and of partial applications through the arrow operator: equal to
+    # the direct call
+    ("map:entry(1, ?)(%s)?1", lambda q: _ints(q), 'builtin-partial-value-argument'),
+    ("map:put(map{}, 3, ?)(%s)?3", lambda q: _ints(q), 'builtin-partial-value-argument'),
+    ("array:append([0], ?)(%s)?2", lambda q: _ints(q), 'builtin-partial-value-argument'),
+    ("array:put([1, 2], 1, ?)(%s)?1", lambda q: _ints(q), 'builtin-partial-value-argument'),
+    ("array:insert-before([1], 1, ?)(%s)?1", lambda q: _ints(q), 'builtin-partial-value-argument'),
+    ("map:size(map:remove(map{1: 2, 5: 6, 7: 8}, ?)(%s))", lambda q: [['int', str(3 - len({1, 5, 7} & set(q)))]],
+     'builtin-partial-value-argument'),
+    ("array:size(array:remove([1, 2, 3, 4, 5, 6, 7, 8, 9], ?)(distinct-values(%s)[. gt 0]))",
+     lambda q: [['int', str(9 - len({x for x in q if x > 0}))]], 'builtin-partial-value-argument'),
+    ('(dateTime#2(?, xs:time("10:00:00"))(xs:date("2020-01-01")) eq dateTime(xs:date("2020-01-01"), xs:time("10:00:00")),'
+     ' string(QName#2(?, "p:a")("urn:x")), %s)', lambda q: [['bool', True], ['str', 'p:a']] + _ints(q), 'multi-role-partial'),
+    ("let $f := concat(?, '-', ?) return ('a' => $f(?))(count(%s))", lambda q: [['str', 'a-%d' % len(q)]],
+     'arrow-partial-of-partial'),
+    ("let $f := concat(?, '-', ?, '+', ?) return (%s ! (. => $f(?, 7))(8))",
+     lambda q: [['str', '%d-8+7' % x] for x in q], 'arrow-partial-of-partial'),
 ]
+
+
+def _ints(q):
+    return [['int', str(x)] for x in q]
 
 
 def _args_for(ptypes, seed):
@@ -216,7 +238,8 @@ def run_case(case, world):
                     violate('MODEL_MISMATCH', what, '%s gave %r, reference interpreter gives %r' % (
                         text, outcome[1], expected[1]), flags)
         elif kind == 'focusref':
-            tmpl, expect = FOCUS_TEMPLATES[op['t'] % len(FOCUS_TEMPLATES)]
+            tmpl, expect = FOCUS_TEMPLATES[op['t'] % len(FOCUS_TEMPLATES)][:2]
+            tfeat = (FOCUS_TEMPLATES[op['t'] % len(FOCUS_TEMPLATES)] + ('focus-dependent-function-reference',))[2]
             text = tmpl % ('(' + ', '.join(str(x) for x in op['seq']) + ')')
             expected = expect(op['seq'])
             stats['programs'] += 1
@@ -232,13 +255,13 @@ def run_case(case, world):
                 for got in outs:
                     if got != expected:
                         violate('MODEL_MISMATCH', 'focusref', '%s gave %r, expected %r' % (text, got, expected), set(),
-                                ['focus-dependent-function-reference'])
+                                [tfeat])
                         break
             except Exception as e:
                 world.event(('error', idx, canon_exc(e)))
                 if is_ep_error(e):
                     violate('MODEL_MISMATCH', 'focusref', '%s raised %r, expected %r' % (text, canon_exc(e), expected), set(),
-                            ['focus-dependent-function-reference', 'engine-error'])
+                            [tfeat, 'engine-error'])
             shapes.append('focusref')
         elif kind == 'make':
             text = ML.render(op['ast'])
